@@ -177,6 +177,15 @@ func lastLines(s string, n int) string {
 		if strings.HasPrefix(x, "panic:") {
 			// keep the panic message and the first frame inside the repository
 			out := x
+			for _, y := range l[i+1:] {
+				// sdk errors print over several lines (Codespace / Code / Message)
+				if strings.HasPrefix(y, "goroutine") || strings.HasPrefix(y, "[signal") {
+					break
+				}
+				if t := strings.TrimSpace(y); t != "" {
+					out += " " + t
+				}
+			}
 			for _, y := range l[i:] {
 				if strings.Contains(y, "/repo/") {
 					out += " @ " + strings.TrimSpace(y)
